@@ -167,23 +167,8 @@ func runC03(c *Ctx) {
 		`^select\{send:call:invoke:wamp\.Peer\.Send\[phi\(%d\.invocations\[%d\.invocationByCall\[`+dCallKey+`\],ok#0\]\.callee\|phi\(`, 1)
 	c.R.Floor(r6, 11)
 
-	// R7 unregister only for a member
 	const r7 = "C03.R7 unregister only for a member"
-	su := dlr + "syncUnregister"
-	member := clause("sender is a callee of the registration", T(`^%d\.calleeRegIDSet\[%callee\]\[%msg\.Registration\],ok#1$`))
-	okDel := clause("removal succeeded", T(`^\(.*syncDelCalleeReg\(%d, %callee, %msg\.Registration\)#1.* == nil\)$`), T(`^\(call:router\.\(\*dealer\)\.syncDelCalleeReg\(%d, %callee, %msg\.Registration\)#1 == nil\)$`))
-	for _, e := range [][2]string{
-		{"UNREGISTERED reply", dTrySendTo + `%callee, new\(wamp\.Unregistered\)\)$`},
-		{"removal from registration", `^call:router\.\(\*dealer\)\.syncDelCalleeReg\(%d, %callee, %msg\.Registration\)$`},
-		{"meta events", `^store:new\(wamp\.Publish\)\.&Topic=`},
-		{"callee's set edited", `^call:builtin:delete\(%d\.calleeRegIDSet`},
-	} {
-		c.Guard(r7, su, e[0], e[1], 1, member)
-	}
-	c.Guard(r7, su, "UNREGISTERED only when removal succeeded", dTrySendTo+`%callee, new\(wamp\.Unregistered\)\)$`, 1, okDel)
-	c.Fields(r7, su, "no_such_registration reply", "wamp.Error", fieldIs("Error", `no_such_registration`), map[string]string{
-		"Request": `^%msg\.Request$`, "Type": `^call:wamp\.\(\*Unregister\)\.MessageType\(%msg\)$`}, 1)
-	c.Fields(r7, su, "UNREGISTERED literal", "wamp.Unregistered", nil, map[string]string{"Request": `^%msg\.Request$`}, 1)
+	ruleUnregisterMember(c, r7)
 	c.R.Floor(r7, 9)
 
 	// R8 callee removal edits registration and tables consistently
@@ -280,3 +265,22 @@ func (c *Ctx) localIs(rule, fnName, name, valRe string) {
 }
 
 func itoa(n int) string { return strconv.Itoa(n) }
+
+func ruleUnregisterMember(c *Ctx, r7 string) {
+	// R7 unregister only for a member
+	su := dlr + "syncUnregister"
+	member := clause("sender is a callee of the registration", T(`^%d\.calleeRegIDSet\[%callee\]\[%msg\.Registration\],ok#1$`))
+	okDel := clause("removal succeeded", T(`^\(.*syncDelCalleeReg\(%d, %callee, %msg\.Registration\)#1.* == nil\)$`), T(`^\(call:router\.\(\*dealer\)\.syncDelCalleeReg\(%d, %callee, %msg\.Registration\)#1 == nil\)$`))
+	for _, e := range [][2]string{
+		{"UNREGISTERED reply", dTrySendTo + `%callee, new\(wamp\.Unregistered\)\)$`},
+		{"removal from registration", `^call:router\.\(\*dealer\)\.syncDelCalleeReg\(%d, %callee, %msg\.Registration\)$`},
+		{"meta events", `^store:new\(wamp\.Publish\)\.&Topic=`},
+		{"callee's set edited", `^call:builtin:delete\(%d\.calleeRegIDSet`},
+	} {
+		c.Guard(r7, su, e[0], e[1], 1, member)
+	}
+	c.Guard(r7, su, "UNREGISTERED only when removal succeeded", dTrySendTo+`%callee, new\(wamp\.Unregistered\)\)$`, 1, okDel)
+	c.Fields(r7, su, "no_such_registration reply", "wamp.Error", fieldIs("Error", `no_such_registration`), map[string]string{
+		"Request": `^%msg\.Request$`, "Type": `^call:wamp\.\(\*Unregister\)\.MessageType\(%msg\)$`}, 1)
+	c.Fields(r7, su, "UNREGISTERED literal", "wamp.Unregistered", nil, map[string]string{"Request": `^%msg\.Request$`}, 1)
+}
